@@ -23,6 +23,7 @@ import (
 // Effect is one journal record of the store: the externally meaningful effects the properties talk about.
 type Effect struct {
 	Seq   int
+	At    int    // position marker from MemStore.Stamp (exchange index), -1 if none
 	Kind  string // AddVoucher ReplaceVoucher RemoveVoucher SetRVBlob NewToken InvalidateToken HandleInfo ProduceInfo
 	Token string
 	GUID  protocol.GUID
@@ -77,6 +78,8 @@ type MemStore struct {
 	Skew time.Duration
 	// OwnerModules builds the owner module list for a TO2 session once devmod completed.
 	OwnerModules func(ctx context.Context, guid protocol.GUID, devmod serviceinfo.Devmod, supported []string) []NamedModule
+	// Stamp, if set, supplies a position marker (e.g. the index of the HTTP exchange being served) for journal entries.
+	Stamp func() int
 	// invalidated tokens (kept to tell "never issued" from "invalidated" in oracles)
 	Dead map[string]bool
 }
@@ -105,6 +108,9 @@ func (s *MemStore) hook(ctx context.Context, method string) error {
 
 func (s *MemStore) journal(e Effect) {
 	e.Seq = len(s.Journal)
+	if s.Stamp != nil {
+		e.At = s.Stamp()
+	}
 	s.Journal = append(s.Journal, e)
 }
 
